@@ -16,7 +16,8 @@ META = {
             "without limit returns, or the `call limit reached` error (position unspecified); and if the parse under L completes (Ok or ParsingError) "
             "then under every L' >= L it returns the identical result. The statement is for parses that return: a limited parse that panics "
             "(stack_pop/stack_peek on a stack that lacks what a refused call would have pushed) is the decidable PanicClass, shown inhabited "
-            "(C12_panic_class_inhabited) and shown never to be a panic internal to pest (C12_panic_is_client_side). For state() as shipped the "
+            "(C12_panic_class_inhabited) and shown never to be a panic internal to pest (C12_panic_is_client_side); C12_trichotomy states clause 1 as "
+            "`equal, or the error, or a panic` without a class hypothesis. For state() as shipped the "
             "statement is refuted in Coq (C12_refuted: rule r = repeat(rule a = \"x\") on xxxx, limit 3: Ok with 1 pair instead of 4; replayed on the "
             "real code through the closure tree and through `r = { a* } a = { \"x\" }` in pest_vm) and proved outside the decidable classes "
             "absorbed-refusal / panic (C12_shipped_outside_classes). Every run ties model and code: all limits 1..calls+2 for exhaustive "
@@ -41,8 +42,8 @@ PATCH = "fixes/C12-1-state-ok-path.patch"
 def plan(tier, seed):
     if tier == "quick":
         cmds = ["witness", "small 2"]
-        cmds += ["prog 700 %d" % (seed * 100 + i) for i in range(6)]
-        cmds += ["grammar 500 %d" % (seed * 100 + i) for i in range(4)]
+        cmds += ["prog 1500 %d" % (seed * 100 + i) for i in range(6)]
+        cmds += ["grammar 900 %d" % (seed * 100 + i) for i in range(4)]
         bounds = ("576 trees then(absorber(refusable), tail) (8 absorbers x 9 refusables x 6 tails, bare and inside a rule) on all inputs of "
                   "length <= 2 over {a,b}; 12 fixed grammars on all inputs of length <= 4 over {x,y,space}")
     else:
@@ -216,11 +217,15 @@ def run(tier, seed, replay=None):
     lp = stats.get("limit_panics", 0)
     if lp:
         note = ("%d limited runs panicked where the unlimited parse does not (PanicClass of coq/props/C12.v: stack_pop/stack_peek after an absorbed "
-                "refusal; model agrees on every one of them)" % lp)
+                "refusal%s)" % (lp, "; the model agrees on every one of them" if not by.get("model") else ""))
         if CLASS_PANIC in known:
             res.known_finding("class=%s witness=r = @{ PUSH(\"a\")? ~ POP } on `aa`, limit 4: panics; without limit: Ok (%d runs)" % (CLASS_PANIC, lp))
         else:
             log("C12: note: " + note)
+    ld = stats.get("limit_diverged", 0)
+    if ld:
+        log("C12: note: %d limited runs of hand-written closure trees did not terminate within the harness budget where the unlimited parse does "
+            "(excluded by the fuel hypothesis of the theorem; C12_example_limit_only_divergence)" % ld)
     if tier != "quick" and thm["ok"]:
         crc, cout = coqchk("C12")
         res.coverage["coqchk"] = "ok" if crc == 0 else "FAILED"
@@ -257,5 +262,5 @@ def run(tier, seed, replay=None):
     res.assumptions = ["input alphabets of the differential runs: a b U+00E9 B (trees), a b x # 1 space / x y space (grammars) - the theorems are for arbitrary byte strings",
                        "rules are numeric ids in the model; grammars have at most 3 rules + WHITESPACE/COMMENT in the runs",
                        "the call limit and the error-detail switch are process globals: set before and reset after every single run, grammars are compiled with no limit set",
-                       "runs that exhaust the harness budget of 4000 closure invocations (non-progressing repeat) are recorded as Diverged and excluded, as in the theorem (fuel hypothesis)"]
+                       "runs that exhaust the harness budget of 1200 closure invocations (non-progressing repeat) are recorded as Diverged and excluded, as in the theorem (fuel hypothesis)"]
     return res.finish()
